@@ -400,6 +400,50 @@ theorem C12_decl_constFree_accepted (d : Decl) (x : String) (h : d.constFree = t
   have hm : mutTarget (.ident x d.elab) = true := by simpa [mutTarget] using C12_decl_constFree d h
   exact ⟨hm, C12_accept _ hm⟩
 
+/-- Paths are lvalues whether const or not (a const-rooted path is refused for its constness, not for its shape) … -/
+theorem C12_path_is_lvalue : ∀ e : Ex, purePath e = true → isLv e = true
+  | .ident _ _, _ => by simp [isLv, lvPred, lvClause, applyClause]
+  | .dot e i, hp => by
+    simp only [purePath, Bool.and_eq_true] at hp
+    have ih := C12_path_is_lvalue e hp.1
+    simp only [isLv] at ih
+    simp [isLv, lvPred, lvClause, applyClause, ih]
+  | .index e c, hp => by
+    simp only [purePath] at hp
+    have ih := C12_path_is_lvalue e hp
+    simp only [isLv] at ih
+    simp [isLv, lvPred, lvClause, applyClause, ih]
+  | .unary _ _, hp => by simp [purePath] at hp
+  | .binary _ _ _, hp => by simp [purePath] at hp
+  | .iif _ _ _ _ _, hp => by simp [purePath] at hp
+  | .opaque _ _, hp => by simp [purePath] at hp
+
+/-- … and, with compile-time computable indices, unique references: -/
+theorem C12_path_is_unique : ∀ e : Ex, purePath e = true → allCtc e = true → isUniq e = true
+  | .ident _ _, _, _ => by simp [isUniq, lvPred, uniqClause, applyClause]
+  | .dot e i, hp, hc => by
+    simp only [purePath, Bool.and_eq_true] at hp
+    have ih := C12_path_is_unique e hp.1 (by simpa [allCtc] using hc)
+    simp only [isUniq] at ih
+    simp [isUniq, lvPred, uniqClause, applyClause, ih]
+  | .index e c, hp, hc => by
+    simp only [purePath] at hp
+    simp only [allCtc, Bool.and_eq_true] at hc
+    have ih := C12_path_is_unique e hp hc.2
+    simp only [isUniq] at ih
+    simp [isUniq, lvPred, uniqClause, applyClause, ih, hc.1]
+  | .unary _ _, hp, _ => by simp [purePath] at hp
+  | .binary _ _ _, hp, _ => by simp [purePath] at hp
+  | .iif _ _ _ _ _, hp, _ => by simp [purePath] at hp
+  | .opaque _ _, hp, _ => by simp [purePath] at hp
+
+/-- so a path into a const-free variable, with computable indices, passes both rules of `visitInstance` for a
+    non-const reference parameter of a template. -/
+theorem C12_inst_argument_accepted (param : Ty) (arg : Ex) (computable : Bool) (href : param.is .kREF = true)
+    (hnc : param.isConstant = false) (hp : purePath arg = true) (hc : allCtc arg = true) (hm : mutTarget arg = true) :
+    instArgRefused param arg computable = false := by
+  simp [instArgRefused, instRefuses, href, hnc, C12_path_is_unique arg hp hc, C12_ref_argument_accepted param arg hm]
+
 /-! ### the exception: a mutable member next to a const array member -/
 
 /-- `struct { const int k[2]; int v; } kk;  kk.v = 1`:  `kk.v` is not const-rooted, yet it is not a modifiable lvalue. -/
